@@ -301,7 +301,10 @@ def eigen(X, P, NSIG=None, method='music', threshold=None, NFFT=default_NFFT,
         if method == 'music':
             PSD = PSD + abs(Z)**2.
         elif method == 'ev' :
-            PSD = PSD + abs(Z)**2. / S[I]
+            # singular values of exactly rank-deficient data can be 0.0 (or
+            # denormal-small): weight them like the smallest numerically
+            # meaningful one instead of dividing by zero
+            PSD = PSD + abs(Z)**2. / max(S[I], np.finfo(float).eps * S[0])
 
     PSD = 1./PSD
 
